@@ -46,7 +46,7 @@ def make_configs(ctx):
                 continue
             cfgs.append(dict(sched=s, dt_init=di, dt_min=dmin, dt_max=dmax, recomp_max=1 + (i + j) % 3,
                              budget=2 if ctx.quick else 3, **p))
-    n_rand = 4 if ctx.quick else 120
+    n_rand = 4 if ctx.quick else 40
     r = ctx.rng
     while n_rand > 0:
         k = r.randint(2, 6)
@@ -183,7 +183,7 @@ def check_config(ctx, idx, c, workers):
                         properties=PROPS, constraint="ExactOnly")
     out["design"] = ctx.tlc(m, cf, workers=workers, allow_violation=False)
     # (2) the real transition system
-    g = real_graph(c, 5000 if ctx.quick else 60000)
+    g = real_graph(c, 5000 if ctx.quick else 25000)
     out["graph"] = g
     gfile = ctx.datafile(f"graph{idx}.json", g)
     # (3) verdict: TLC model-checks the property on the recorded real graph
@@ -365,7 +365,7 @@ def run(ctx):
     ctx.exhaustive = not any(o["graph"]["truncated"] for o in outs)
     ctx.extra["configurations"] = len(cfgs)
     # second family: arbitrary (non-dyadic) float parameters, random scripts, clauses judged within a tolerance
-    fj = float_family(ctx, 12 if ctx.quick else 150, 40 if ctx.quick else 150)
+    fj = float_family(ctx, 12 if ctx.quick else 100, 40 if ctx.quick else 120)
     with ThreadPoolExecutor(4) as pool:
         list(pool.map(lambda t: judge_float(ctx, t[0], t[1][0], t[1][1]), enumerate(fj)))
     ctx.extra["float_configurations"] = len(fj)
